@@ -129,11 +129,12 @@ func (hs *ssDHClientHandshake) parseServerHandshake(resp []byte) (int, []byte, e
 			return 0, nil, ErrInvalidHandshake
 		}
 		return 0, nil, errMarkNotFoundYet
-	} else if len(resp) < pos+2*macLength {
-		// Didn't receive the full M_S.
-		return 0, nil, errMarkNotFoundYet
 	}
 	pos += uniformdh.Size
+	if len(resp) < pos+2*macLength {
+		// Didn't receive the full MAC.
+		return 0, nil, errMarkNotFoundYet
+	}
 
 	// Validate the MAC.
 	_, _ = hs.mac.Write(resp[uniformdh.Size : pos+macLength])
